@@ -59,6 +59,14 @@ HISTORY = {
     "C13-mux-panic-cache-union": "missed by C13 at first (C02 caught it): the failing operation of every join loop body depended on the joined rows; loops with a row-independent failing operation (100 / d, d a third parameter) added for all table sizes up to 3 x 3 (thorough 4 x 4)",
     "C15-sorter-dedup-off": "missed at first: no program computed the same join twice; 22 constructs (every operator class, index, if, match, comparisons of aggregates, both join forms) x 5 ways of computing them twice on the same wires are now scanned structurally, with de-duplication on and off",
     "C17-enum-pattern-too-few-fields": "missed at first: enum patterns only ever got one sub-pattern too many; arity -1 (last / first sub-pattern dropped), a sub-pattern for a unit variant, and five hand-written texts (match, let, for, nested, empty parentheses) added",
+    "C05-foreach-empty-array-early-return": "missed by C05 at first (C14 caught it): C05 compiled families E, S, P, D only; families X (degenerate loops in branches, arms, operands and loop bodies) and A are now compiled and shape-checked by C05 as well",
+    "C07-literal-enum-later-fields-expr": "missed by C07 at first (C09 caught it): literal strings were only perturbed token by token; every value token of a literal is now also wrapped in 15 expression forms, and literals with two-field variants inside arrays and tuples were added",
+    "C08-usize-max-host-width": "missed at first: usize was not a scrutinee type of the quick tier; a usize alphabet (ranges reaching 2^32 - 1, a literal of 2^32, unsuffixed patterns) and usize in the range-pattern text sweep added",
+    "C11-export-no-truncate": "missed at first: every export went to a fresh path; the state of the file before the export is now an environment answer that is varied (absent / empty / an older, longer file)",
+    "C12-const-minmax-flattened": "missed by the quick tier at first (the thorough enumeration has it): no section nested min directly in max or the reverse; four such sections added",
+    "C14-shortcircuit-env-copy-only-for-blocks": "missed at first: every effect of family X was carried by a plain block; effects carried by an if, a match and an operator over a block (three more u8 carriers, four more Boolean ones) now fill every hole",
+    "C16-register-free-list-party-count": "missed by C16 at first (C10 caught it): no compiled program had more parties than input bits; three such programs added to the zero-sized program list shared by C05 and C16",
+    "C17-block-type-from-any-expr-stmt": "missed at first: no rule turned a needed block value into an expression statement; rule TailThenLet (an if branch / a match arm / a fn body whose value is certainly needed ends in a `let` after its former tail) added",
     "C17-match-arms-share-scope": "missed at first: UseAfterScope only covered loop variables and block locals; replaced by a reference model of lexical scoping (every use x every name bound elsewhere but not in scope)",
 }
 rows = []
